@@ -48,6 +48,8 @@ type runner struct {
 	aloneMu sync.Mutex
 	alone   map[string]*aloneRes
 	nshrunk map[string]int
+	hangs   atomic.Int64 // children that had to be killed: after the first one nothing is minimised any more and
+	// the time limit shrinks; after the third the remaining batches are not run
 }
 
 type aloneRes struct {
@@ -284,6 +286,9 @@ func (rn *runner) runBatch(b *Batch, dl *DeadlineJob, sched []int) *runObs {
 	done := make(chan error, 1)
 	go func() { done <- cmd.Wait() }()
 	limit := 60 * time.Second
+	if rn.hangs.Load() > 0 {
+		limit = 20 * time.Second
+	}
 	if dl != nil {
 		limit = time.Duration(dl.UntilMs)*time.Millisecond + 30*time.Second
 	}
@@ -294,6 +299,7 @@ func (rn *runner) runBatch(b *Batch, dl *DeadlineJob, sched []int) *runObs {
 		}
 	case <-time.After(limit):
 		ro.timedOut = true
+		rn.hangs.Add(1)
 		syscall.Kill(-cmd.Process.Pid, syscall.SIGQUIT)
 		select {
 		case <-done:
@@ -852,7 +858,7 @@ func (rn *runner) report(b *Batch, fs []finding, doShrink bool, sched []int) {
 		rn.nshrunk[f.oracle]++
 		first := rn.nshrunk[f.oracle] <= 2 // at most two witnesses per oracle are minimised
 		rn.rmu.Unlock()
-		if doShrink && first && f.oracle != "hang" && f.oracle != "race-detector" {
+		if doShrink && first && f.oracle != "hang" && f.oracle != "race-detector" && rn.hangs.Load() == 0 {
 			mb = rn.shrink(b, f.oracle, sched)
 		}
 		j, _ := json.Marshal(mb)
@@ -868,6 +874,14 @@ func (rn *runner) report(b *Batch, fs []finding, doShrink bool, sched []int) {
 			Key: f.oracle + ":" + specKey(mb)})
 		rn.rmu.Unlock()
 	}
+}
+
+// keyOf: one report per oracle for hangs (every later batch would hang for the same reason), per batch otherwise.
+func keyOf(oracle string, b *Batch) string {
+	if oracle == "hang" {
+		return "hang"
+	}
+	return oracle + ":" + specKey(b)
 }
 
 func (rn *runner) one(b *Batch, tag string, doShrink bool, sched []int) {
@@ -1125,12 +1139,17 @@ func (rn *runner) mainC04() {
 	}
 	workers := 5
 	var wg sync.WaitGroup
+	var skipped atomic.Int64
 	ch := make(chan int)
 	for w := 0; w < workers; w++ {
 		wg.Add(1)
 		go func() {
 			defer wg.Done()
 			for i := range ch {
+				if rn.hangs.Load() >= 3 {
+					skipped.Add(1)
+					continue
+				}
 				if len(items[i].b.Scripts) == 0 {
 					rn.emptyBatch(&items[i].b)
 				} else {
@@ -1144,6 +1163,9 @@ func (rn *runner) mainC04() {
 	}
 	close(ch)
 	wg.Wait()
+	if n := skipped.Load(); n > 0 {
+		res.Notes = append(res.Notes, fmt.Sprintf("%d batches were not run: three children had already hung and had to be killed", n))
+	}
 	res.Rule = fmt.Sprintf("corpus batches; the execCache pair in both start orders and, with the harness holding the turn (a T whose Parallel parks the subtest and a gate command before every script line), under all %d interleavings of its lines; the pair whose archive names files outside the work directory; RunT without any script; a hand-written batch covering every exit path (pass, fail, skip, stop, setup failure, panicking custom command, panicking deferred function) with defers, background processes and read-only directories under each retention mode, with and without ContinueOnError; then %d generated batches of 2-8 scripts (with kill / kill+wait, ContinueOnError, $WORK-named and escaping archive entries), each run free under three settings of GOMAXPROCS / subtest parallelism / start delays / verbosity and gated under a random and a sequential schedule, the model being asked for the same schedule; every script is also run alone; children built with -race, unprivileged when possible; a batch is non-trivial when some script has defers, background processes, probes or does not pass; distinct = distinct (retention, verdicts, defer orders, probe counts)",
 		len(interleavings([]int{turns(&gp.Scripts[0]), turns(&gp.Scripts[1])}, 64)), n)
 }
